@@ -126,6 +126,7 @@ fn gen(t: &mut Tape, _tier: Tier) -> Scenario {
     let m = mutate(t, &mut input);
     sc.note = format!("mutation: {}{}", m, if variant.is_empty() { String::new() } else { format!("; CRC-consistent field substitution: {}", variant) });
     sc.set_b("input", input);
+    opts.wrapper = t.below(2) == 1;
     opts.store(&mut sc);
     raw.store(&mut sc);
     // reader B: fragmented
